@@ -1,7 +1,8 @@
 """property -> units / harness groups"""
 
 PROPERTIES = {
-    'C01': dict(level='proof', verus=['rlabels'], kani=[], out=[]),
+    'C01': dict(level='proof', verus=['rlabels', 'rbranch'], kani=[], out=[]),
     'C02': dict(level='proof', verus=['cwrite', 'wjump'], kani=[], out=[]),
-    'C16': dict(level='proof', verus=['rlabels', 'cwrite', 'wjump'], kani=[], out=[]),
+    'C17': dict(level='proof', verus=['rskip'], kani=[], out=[]),
+    'C16': dict(level='proof', verus=['rlabels', 'cwrite', 'wjump', 'rskip', 'rbranch'], kani=[], out=[]),
 }
